@@ -294,32 +294,35 @@ pub enum FunctionArg<T> {
 /// Unpack the visited expressions of visitor::Visitor to ease the writing of Visitor
 impl<'a, T: Clone, V: Visitor<'a, T>> visitor::Visitor<'a, ast::Expr, T> for V {
     fn visit(&self, acceptor: &'a ast::Expr, dependencies: Visited<'a, ast::Expr, T>) -> T {
+        // The operand of IS [NOT] TRUE / FALSE is cast to boolean, unless it is such a cast already
+        // (as in the text rendered from a relation): otherwise each round trip adds one more cast.
+        let as_boolean = |expr: &'a ast::Expr| -> T {
+            let mut inner = expr;
+            while let ast::Expr::Nested(nested) = inner {
+                inner = nested.as_ref();
+            }
+            match inner {
+                ast::Expr::Cast {
+                    data_type: ast::DataType::Boolean,
+                    ..
+                } => dependencies.get(expr).clone(),
+                _ => self.cast(dependencies.get(expr).clone(), &ast::DataType::Boolean),
+            }
+        };
         match acceptor {
             ast::Expr::Identifier(ident) => self.identifier(ident),
             ast::Expr::CompoundIdentifier(idents) => self.compound_identifier(idents),
             ast::Expr::JsonAccess { value: _, path: _ } => todo!(),
             ast::Expr::CompositeAccess { expr: _, key: _ } => todo!(),
-            ast::Expr::IsFalse(expr) => self.is(
-                self.cast(dependencies.get(expr).clone(), &ast::DataType::Boolean),
-                Some(false),
-            ),
+            ast::Expr::IsFalse(expr) => self.is(as_boolean(expr), Some(false)),
             ast::Expr::IsNotFalse(expr) => self.unary_op(
                 &ast::UnaryOperator::Not,
-                self.is(
-                    self.cast(dependencies.get(expr).clone(), &ast::DataType::Boolean),
-                    Some(false),
-                ),
+                self.is(as_boolean(expr), Some(false)),
             ),
-            ast::Expr::IsTrue(expr) => self.is(
-                self.cast(dependencies.get(expr).clone(), &ast::DataType::Boolean),
-                Some(true),
-            ),
+            ast::Expr::IsTrue(expr) => self.is(as_boolean(expr), Some(true)),
             ast::Expr::IsNotTrue(expr) => self.unary_op(
                 &ast::UnaryOperator::Not,
-                self.is(
-                    self.cast(dependencies.get(expr).clone(), &ast::DataType::Boolean),
-                    Some(true),
-                ),
+                self.is(as_boolean(expr), Some(true)),
             ),
             ast::Expr::IsNull(expr) => self.is(dependencies.get(expr).clone(), None),
             ast::Expr::IsNotNull(expr) => self.unary_op(
